@@ -345,6 +345,13 @@ def gen_blocks(rng, n):
         shape = rng.choice(SHAPES)
         cnt = int(np.prod(shape)) if shape else 1
         Zs = [C.rzinv(rng, "QI", dim, 3, 2, F(1, 4)) for _ in range(cnt)]
+        if rng.random() < 0.35:
+            # deviation from the real (or purely imaginary) locus of size 10^-6..10^-14: nearly real complex matrices
+            eps = F(10) ** (-rng.randint(6, 14))
+            tiny_re = rng.random() < 0.25
+            Zs = [[[Z(z.re * eps, z.im) if tiny_re else Z(z.re, z.im * eps) for z in row] for row in M] for M in Zs]
+            if rng.random() < 0.5 and not tiny_re:          # a single tiny imaginary entry in a unipotent matrix
+                Zs[0] = [[Z(1 if i == j else 0, eps if (i, j) == (0, dim - 1) else 0) for j in range(dim)] for i in range(dim)]
         field = rfield(rng)
         Bs = [C.rzinv(rng, field, dim, 3, 2, F(1, 4)) for _ in range(cnt)]
         yield {"n": dim, "shape": shape, "Z": C.enc(Zs, "QI"), "field": field, "B": C.enc(Bs, field),
@@ -384,8 +391,16 @@ def judge_blocks(inp, obs, lr):
         for r in (r1, r2):
             if "err" in r:
                 return {"expected": "model answer", "observed": r, "tags": dict(tags0, driver_err=r["err"])}
-        if not same(slr[u].real, Q.decf(r1["ok"])):
-            return {"expected": r1["ok"], "observed": slr[u].tolist(), "tags": dict(tags0, site="slc_to_slr", unit=u)}
+        mslr = Q.decf(r1["ok"])
+        # each of the four blocks (Re, -Im, Im, Re) is compared relative to ITS OWN size: an imaginary part of size 1e-12 is data
+        for bi in range(2):
+            for bj in range(2):
+                gb = slr[u].real[bi * n:(bi + 1) * n, bj * n:(bj + 1) * n]
+                mb = mslr[bi * n:(bi + 1) * n, bj * n:(bj + 1) * n]
+                sc = float(np.max(np.abs(mb)))
+                if float(np.max(np.abs(gb - mb))) > 1e-9 * sc:
+                    return {"expected": r1["ok"], "observed": slr[u].real.tolist(),
+                            "tags": dict(tags0, site="slc_to_slr", unit=u, block=[bi, bj], block_size=sc), "property_failure": True}
         if not same(blk[u], C.dec(r2["ok"], inp["field"])):
             return {"expected": r2["ok"], "observed": blk[u].tolist(), "tags": dict(tags0, site="block_include", unit=u)}
     return None
@@ -393,8 +408,16 @@ def judge_blocks(inp, obs, lr):
 
 def gen_so31(rng, n):
     for _ in range(n):
-        kind = rng.choice(["sl2", "sl2", "zero", "gl2", "real", "locus", "locus", "word"])
-        M = rmat2(rng, "Q" if kind == "real" else "QI", "sl2" if kind == "real" else kind)
+        kind = rng.choice(["sl2", "sl2", "zero", "gl2", "real", "locus", "locus", "word", "near_identity", "near_identity"])
+        if kind == "near_identity":
+            # unipotent / boost / rotation-like elements with parameter 10^-6..10^-14 (exact determinant one)
+            eps = F(10) ** (-rng.randint(6, 14)) * rng.choice([1, -1, 3])
+            w = Z(eps, 0) if rng.random() < 0.5 else Z(eps, 2 * eps)
+            M = rng.choice([[[Z(1), w], [Z(0), Z(1)]], [[Z(1), Z(0)], [w, Z(1)]],
+                            [[Z(1) + w, w], [Z(0) - w, Z(1) - w]],                 # (1+w)(1-w) + w^2 = 1
+                            [[Z(-1), w], [Z(0), Z(-1)]]])
+        else:
+            M = rmat2(rng, "Q" if kind == "real" else "QI", "sl2" if kind == "real" else kind)
         yield {"kind": kind, "M": C.enc(M, "QI"), "via_hom": rng.random() < 0.3}
 
 
@@ -420,8 +443,17 @@ def judge_so31(inp, obs, lr):
     S = toarr(obs["S"])
     if np.iscomplexobj(S) and np.max(np.abs(S.imag)) > 1e-12:
         return {"expected": "real matrix", "observed": float(np.max(np.abs(S.imag))), "tags": dict(tags0, site="imag")}
-    if not same(S.real, Q.decf(r["ok"]["S"])):
+    mS = Q.decf(r["ok"]["S"])
+    if not same(S.real, mS):
         return {"expected": r["ok"]["S"], "observed": S.tolist(), "tags": dict(tags0, site="sl2c_to_so31")}
+    if inp["kind"] == "near_identity":
+        # the deviation from the identity IS the information: compare S - 1 relative to its own size (the clean tree gets it to
+        # ~1e-16 absolute; a deviation of 1e-13 must not be rounded away)
+        dev_m, dev_p = mS - np.eye(4), S.real - np.eye(4)
+        sc = float(np.max(np.abs(dev_m)))
+        if sc > 0 and float(np.max(np.abs(dev_p - dev_m))) > 1e-2 * sc + 4e-16:
+            return {"expected": {"S - 1": dev_m.tolist()}, "observed": {"S - 1": dev_p.tolist()},
+                    "tags": dict(tags0, site="near_identity", deviation=sc), "property_failure": True}
     Hc = toarr(obs["herm_unreal"])
     if np.max(np.abs(Hc.imag)) > 1e-9 * (1 + np.max(np.abs(Hc))):
         return {"expected": "utils.real drops a zero imaginary part", "observed": float(np.max(np.abs(Hc.imag))),
@@ -1342,6 +1374,87 @@ def judge_entry(inp, obs, lr):
     return None
 
 
+# ------------------------------------------------------------------------------------------------
+# near-identity elements (deviation 10^-6..10^-14 from the identity, or from the real locus) and high powers by repeated squaring:
+# the deviation is the information, so it is compared relative to its own size
+# ------------------------------------------------------------------------------------------------
+NEAR_MAPS = ["irrep", "so21", "gln", "sln", "slr", "blk", "so31"]
+
+
+def gen_near(rng, n):
+    for _ in range(n):
+        name = rng.choice(NEAR_MAPS)
+        eps = 10.0 ** (-rng.randint(6, 14)) * rng.choice([1.0, -1.0, 3.0])
+        param = None
+        if name in ("irrep", "so21", "so31"):
+            N = np.array(rng.choice([[[0, 1], [0, 0]], [[0, 0], [1, 0]], [[1, 1], [-1, -1]]]), dtype=float)
+            if name == "so31" and rng.random() < 0.5:
+                N = N * (1 + 2j)
+            g = np.eye(2) + eps * N                      # N^2 = 0: determinant exactly one
+            if name == "irrep":
+                param = rng.choice([2, 3, 4, 5])
+        else:
+            k = rng.choice([2, 3])
+            cplx = name == "slr" or rng.random() < 0.3
+            g = np.eye(k) + eps * fgl(rng, k, cplx)
+            if name == "slr" and rng.random() < 0.6:     # a real matrix plus an imaginary part of size eps
+                g = fgl(rng, k, False) + 1j * eps * fgl(rng, k, False)
+            if name == "blk":
+                param = k + 1
+        yield {"map": name, "param": param, "g": enc_c(g), "eps": eps, "squarings": rng.choice([0, 0, 10, 20])}
+
+
+def run_near(inp):
+    name, param = inp["map"], inp["param"]
+    g = toarr(inp["g"])
+    if name in ("so31", "slr"):
+        g = g.astype(complex)
+    out = np.asarray(map_fn(name, param)(g.copy()))
+    ref = np.asarray(iso_ref(name, param, g))
+    res = {"shape_ok": out.shape == ref.shape}
+    if not res["shape_ok"]:
+        return res
+    if name == "slr":
+        k = g.shape[0]
+        worst = 0.0
+        for bi in range(2):
+            for bj in range(2):
+                mb = ref[bi * k:(bi + 1) * k, bj * k:(bj + 1) * k]
+                gb = out.real[bi * k:(bi + 1) * k, bj * k:(bj + 1) * k]
+                worst = max(worst, float(np.max(np.abs(gb - mb)) / max(np.max(np.abs(mb)), 1e-300)))
+        res["dev_err"] = worst
+    else:
+        Im = np.eye(ref.shape[-1])
+        dev = ref - Im
+        sc = float(np.max(np.abs(dev)))
+        res["dev_err"] = float(np.max(np.abs((out - Im) - dev)) / sc) if sc > 0 else float(np.max(np.abs(out - Im)))
+        res["dev_size"] = sc
+    if inp["squarings"] and name in ("irrep", "so21", "so31", "gln"):
+        T, h = out.astype(complex), g.astype(complex)
+        for _ in range(inp["squarings"]):
+            T, h = T @ T, h @ h
+        Tr = np.asarray(iso_ref(name, param, h))
+        res["power_err"] = float(np.max(np.abs(T - Tr)) / (1 + np.max(np.abs(Tr))))
+        res["power_dev"] = float(np.max(np.abs(Tr - np.eye(Tr.shape[-1]))))
+    return res
+
+
+def judge_near(inp, obs, lr):
+    tags0 = {"map": inp["map"], "near_identity": True, "eps": inp["eps"]}
+    if "exc" in obs:
+        return {"expected": "a value", "observed": obs, "tags": dict(tags0, exc=obs["exc"])}
+    if not obs["shape_ok"]:
+        return {"expected": "shape of the reference", "observed": obs, "tags": dict(tags0, site="shape")}
+    # the clean tree gets f(g) to ~1e-16 absolute, i.e. the deviation to 1e-16/|deviation| relative; 1e-2 + that is claimed
+    lim = 1e-2 + 1e-15 / max(obs.get("dev_size", abs(inp["eps"])), 1e-300)
+    if not obs["dev_err"] <= lim:
+        return {"expected": "f(g) - 1 (resp. each block of slc_to_slr) correct relative to its own size", "observed": obs,
+                "tags": dict(tags0, site="deviation")}
+    if "power_err" in obs and not obs["power_err"] <= 1e-9 * max(1.0, 2.0 ** inp["squarings"] * 1e-4):
+        return {"expected": "f(g)^(2^k) = f(g^(2^k)) by repeated squaring", "observed": obs, "tags": dict(tags0, site="power")}
+    return None
+
+
 def gen_pglform(rng, n):
     for _ in range(n):
         kind = rng.choice(["diag", "generic", "orthogonal"])
@@ -1558,6 +1671,11 @@ CLAUSES = [
            budget={"quick": 400, "thorough": 10000},
            what="f(A·B) = f(A)·f(B), f(1) = 1 for every map (irrep n=1..6, so21, gln/sln adjoint n=2..6, slc_to_slr, block_include, "
                 "sl2c_to_so31; direct and via lie.hom), single matrices and arrays of matrices, arrays = unit-by-unit"),
+    Clause("near_identity_oracle", "oracle", gen_near, run_near, judge_near, site="lie.* near the identity / the real locus",
+           budget={"quick": 300, "thorough": 6000},
+           what="elements 1 + eps·N with eps = 10^-6..10^-14 (unipotent, boost-like, generic; real matrices with an imaginary part of size "
+                "eps for slc_to_slr) through every Lie map: f(g) - 1, resp. each block of the realification, is compared with an "
+                "independent reference RELATIVE TO ITS OWN SIZE; f(g)^(2^k) = f(g^(2^k)) for k = 10, 20 by repeated squaring"),
     Clause("entrypoints_oracle", "oracle", gen_entry, run_entry, judge_entry, site="sl2_to_so21 / sl2_iso / Isometry.from_sl2 / lie.hom.* / to_sl2",
            budget={"quick": 250, "thorough": 5000},
            what="all entry points of SL(2)->SO(2,1) (lie.sl2_to_so21, lie.hom.sl2_to_so21(), sl2_iso, Isometry.from_sl2, Isometry(data)) and "
